@@ -1061,6 +1061,23 @@ fn hub_attacks(rng: &mut Rng, n: usize) -> Vec<(usize, usize)> {
     atts
 }
 
+/// Declared sizes at and around powers of two (2^8, 2^16) and the cap of this check, with attacks
+/// among the first and last arguments: index arithmetic that only fails at a size boundary.
+pub fn gen_iccma_corner_text(rng: &mut Rng) -> Vec<u8> {
+    let n = *rng.pick(&[255usize, 256, 257, 4095, 4096, 4097, 65_535, 65_536, 65_537, 65_538, 70_000, 99_999]);
+    let corners = [1usize, 2, 3, n - 2, n - 1, n];
+    let mut s = format!("p af {}\n", n);
+    let mut seen = BTreeSet::new();
+    for _ in 0..rng.range(2, 14) {
+        let a = *rng.pick(&corners);
+        let b = *rng.pick(&corners);
+        if seen.insert((a, b)) {
+            s.push_str(&format!("{} {}\n", a, b));
+        }
+    }
+    s.into_bytes()
+}
+
 pub fn gen_iccma_text(rng: &mut Rng) -> (Vec<u8>, usize, Vec<(usize, usize)>) {
     let large = rng.pct(4);
     let n = if large { rng.range(18, 60) } else if rng.pct(8) { 0 } else { rng.range(1, 9) };
@@ -1364,6 +1381,36 @@ pub fn run_reader(iccma: bool, bytes: &[u8]) -> ReadOutcome {
     }
 }
 
+thread_local! {
+    /// One long-lived reader object per format and per shard: `read` takes `&self`, so an object may
+    /// legally serve any number of inputs, well-formed or not, in any order.
+    static LONG_LIVED_ICCMA: Iccma23Reader = Iccma23Reader::default();
+    static LONG_LIVED_APX: AspartixReader = AspartixReader::default();
+    static PREVIOUS_INPUT: std::cell::RefCell<[Vec<u8>; 2]> = const { std::cell::RefCell::new([Vec::new(), Vec::new()]) };
+}
+
+/// The same input put to the shard's long-lived reader object (which has read every earlier input of
+/// the shard, including the rejected ones).  Returns the outcome and the previous input of that object.
+pub fn run_reader_long_lived(iccma: bool, bytes: &[u8]) -> (ReadOutcome, Vec<u8>) {
+    let r = catch(|| {
+        if iccma {
+            LONG_LIVED_ICCMA.with(|rd| rd.read(&mut &bytes[..]).map(|af| describe(&af)).map_err(|e| format!("{:#}", e)))
+        } else {
+            LONG_LIVED_APX.with(|rd| rd.read(&mut &bytes[..]).map(|af| describe(&af)).map_err(|e| format!("{:#}", e)))
+        }
+    });
+    let prev = PREVIOUS_INPUT.with(|p| {
+        let mut p = p.borrow_mut();
+        std::mem::replace(&mut p[usize::from(iccma)], bytes.to_vec())
+    });
+    let out = match r {
+        Ok(Ok((n, a))) => ReadOutcome::Ok(n, a),
+        Ok(Err(e)) => ReadOutcome::Err(e),
+        Err(p) => ReadOutcome::Panic(p.msg.clone(), p.site()),
+    };
+    (out, prev)
+}
+
 fn text_case(iccma: bool, class: &str, bytes: &[u8]) -> Value {
     json!({"format": if iccma { "iccma23" } else { "apx" }, "class": class,
            "bytes_hex": bytes.iter().map(|b| format!("{:02x}", b)).collect::<String>(),
@@ -1380,6 +1427,32 @@ fn judge_text(ctx: &mut Ctx, iccma: bool, class: &str, bytes: &[u8], listed_cat:
     }
     let got = run_reader(iccma, bytes);
     ctx.count(&format!("inputs/{}/{}", fmt, class));
+    // a reader object that has already served other inputs must behave like a fresh one
+    {
+        let (reused, previous) = run_reader_long_lived(iccma, bytes);
+        ctx.count("inputs/also-read-by-a-long-lived-reader-object");
+        let same = match (&got, &reused) {
+            (ReadOutcome::Ok(a, b), ReadOutcome::Ok(c, d)) => a == c && b == d,
+            (ReadOutcome::Err(_), ReadOutcome::Err(_)) => true,
+            (ReadOutcome::Panic(..), ReadOutcome::Panic(..)) => true,
+            _ => false,
+        };
+        if !same {
+            ctx.violation(
+                &format!("C13/reused-reader-object-differs-from-fresh-one/{}", fmt),
+                json!({"fresh_reader": format!("{:?}", got).chars().take(400).collect::<String>(),
+                       "long_lived_reader": format!("{:?}", reused).chars().take(400).collect::<String>(),
+                       "previous_input_of_the_long_lived_reader_lossy": String::from_utf8_lossy(&previous),
+                       "previous_input_hex": previous.iter().map(|b| format!("{:02x}", b)).collect::<String>()}),
+                &{
+                    let mut c = text_case(iccma, class, bytes);
+                    c["previous_input_hex"] = json!(previous.iter().map(|b| format!("{:02x}", b)).collect::<String>());
+                    c
+                },
+            );
+            return;
+        }
+    }
     if let ReadOutcome::Panic(msg, site) = &got {
         ctx.violation(
             &format!("C13/panic/{}/{}", fmt, site),
@@ -1588,6 +1661,12 @@ pub fn run_c13(ctx: &mut Ctx) {
 }
 
 fn c13_one(ctx: &mut Ctx, rng: &mut Rng, i: u64, cli_every: u64) {
+    if i % 400 == 7 {
+        let mut r2 = rng.clone();
+        let t = gen_iccma_corner_text(&mut r2);
+        ctx.count("inputs/iccma23/declared-size-at-a-power-of-two-boundary");
+        judge_text(ctx, true, "well-formed", &t, None);
+    }
     {
         let mut rng = rng.clone();
         let iccma = rng.pct(50);
@@ -1623,6 +1702,11 @@ pub fn replay_c13(ctx: &mut Ctx, case: &Value) -> Result<(), String> {
         .collect::<Result<Vec<_>, _>>()?;
     let iccma = case.get("format").and_then(|x| x.as_str()) == Some("iccma23");
     let class = case.get("class").and_then(|x| x.as_str()).unwrap_or("replay").to_string();
+    if let Some(ph) = case.get("previous_input_hex").and_then(|x| x.as_str()) {
+        // the long-lived reader object first reads what it had read before the recorded input
+        let prev: Vec<u8> = (0..ph.len() / 2).filter_map(|i| u8::from_str_radix(&ph[2 * i..2 * i + 2], 16).ok()).collect();
+        let _ = run_reader_long_lived(iccma, &prev);
+    }
     if class == "listed-ill-formed" {
         judge_text(ctx, iccma, &class, &bytes, Some("replayed"));
     } else {
@@ -1651,6 +1735,55 @@ impl Write for OneByte {
     fn flush(&mut self) -> std::io::Result<()> {
         Ok(())
     }
+}
+
+/// A sink that accepts `left` bytes and then fails.
+struct FailsAfter {
+    left: usize,
+}
+
+impl Write for FailsAfter {
+    fn write(&mut self, buf: &[u8]) -> std::io::Result<usize> {
+        if self.left == 0 {
+            return Err(std::io::Error::new(std::io::ErrorKind::Other, "sink full (injected)"));
+        }
+        let k = buf.len().min(self.left);
+        self.left -= k;
+        Ok(k)
+    }
+    fn flush(&mut self) -> std::io::Result<()> {
+        Ok(())
+    }
+}
+
+thread_local! {
+    /// One long-lived writer object per format and shard (the methods take `&self`): it serves every
+    /// answer of the shard, and now and then a write into a sink that fails, before the judged one.
+    static LONG_LIVED_ICCMA_WRITER: Iccma23Writer = Iccma23Writer::default();
+    static LONG_LIVED_APX_WRITER: AspartixWriter = AspartixWriter::default();
+    static WRITES_SEEN: std::cell::Cell<u64> = const { std::cell::Cell::new(0) };
+}
+
+/// Every fifth answer is preceded by the same kind of answer written, with the same object, into a
+/// sink that fails after 0-5 bytes; whatever that does, the next answer must be exactly right.
+fn failing_write_due() -> Option<usize> {
+    WRITES_SEEN.with(|c| {
+        let n = c.get() + 1;
+        c.set(n);
+        if n % 5 == 0 {
+            Some(((n / 5) % 6) as usize)
+        } else {
+            None
+        }
+    })
+}
+
+fn with_iccma_writer<R>(f: impl FnOnce(&Iccma23Writer) -> R) -> R {
+    LONG_LIVED_ICCMA_WRITER.with(|w| f(w))
+}
+
+fn with_apx_writer<R>(f: impl FnOnce(&AspartixWriter) -> R) -> R {
+    LONG_LIVED_APX_WRITER.with(|w| f(w))
 }
 
 fn write_with<F>(short: bool, f: F) -> Result<Vec<u8>, String>
@@ -1763,7 +1896,7 @@ fn eval_c14_framework(ctx: &mut Ctx, rng: &mut Rng) {
     let case = json!({"kind": "framework", "ops": ops.iter().map(|o| o.to_json()).collect::<Vec<_>>()});
     ctx.eval();
     let short = rng.pct(30);
-    let written = catch(|| write_with(short, |w| AspartixWriter.write_framework(&af, w)));
+    let written = catch(|| write_with(short, |w| with_apx_writer(|wr| wr.write_framework(&af, w))));
     let bytes = match written {
         Err(p) => {
             ctx.violation(&format!("C14/panic/write_framework/{}", p.site()), p.to_json(), &case);
@@ -1879,7 +2012,12 @@ fn eval_c14_answers(ctx: &mut Ctx, rng: &mut Rng) {
         let expect: Vec<String> = chosen.iter().map(|a| a.label().to_string()).collect();
         let case = json!({"kind": "iccma-extension", "n_labels": expect.len(), "labels_prefix": expect.iter().take(20).collect::<Vec<_>>()});
         ctx.eval();
-        match catch(|| write_with(short, |w| Iccma23Writer.write_single_extension(w, &chosen))) {
+        match catch(|| {
+            if let Some(k) = failing_write_due() {
+                let _ = with_iccma_writer(|wr| wr.write_single_extension(&mut FailsAfter { left: k }, &chosen));
+            }
+            write_with(short, |w| with_iccma_writer(|wr| wr.write_single_extension(w, &chosen)))
+        }) {
             Err(p) => ctx.violation(&format!("C14/panic/iccma-write_single_extension/{}", p.site()), p.to_json(), &case),
             Ok(Err(e)) => ctx.violation("C14/iccma-write_single_extension-failed", json!({"error": e}), &case),
             Ok(Ok(b)) => match parse_w_line(&b) {
@@ -1908,13 +2046,13 @@ fn eval_c14_answers(ctx: &mut Ctx, rng: &mut Rng) {
         for st in [true, false] {
             ctx.eval();
             let exp: &[u8] = if st { b"YES\n" } else { b"NO\n" };
-            match catch(|| write_with(short, |w| Iccma23Writer.write_acceptance_status(w, st))) {
+            match catch(|| write_with(short, |w| with_iccma_writer(|wr| wr.write_acceptance_status(w, st)))) {
                 Ok(Ok(b)) if b == exp => ctx.count("status_lines_checked"),
                 other => ctx.violation("C14/iccma-status-line", json!({"status": st, "got": format!("{:?}", other.map(|r| r.map(|b| String::from_utf8_lossy(&b).to_string())).map_err(|p| p.msg))}), &json!({"kind": "status"})),
             }
         }
         ctx.eval();
-        match catch(|| write_with(short, |w| Iccma23Writer.write_no_extension(w))) {
+        match catch(|| write_with(short, |w| with_iccma_writer(|wr| wr.write_no_extension(w)))) {
             Ok(Ok(b)) if b == b"NO\n" => ctx.count("status_lines_checked"),
             other => ctx.violation("C14/iccma-no-extension-line", json!({"got": format!("{:?}", other.map(|r| r.map(|b| String::from_utf8_lossy(&b).to_string())).map_err(|p| p.msg))}), &json!({"kind": "no-extension"})),
         }
@@ -1929,7 +2067,12 @@ fn eval_c14_answers(ctx: &mut Ctx, rng: &mut Rng) {
         let expect: Vec<String> = chosen.iter().map(|a| a.label().clone()).collect();
         let case = json!({"kind": "apx-extension", "n_labels": expect.len(), "labels_prefix": expect.iter().take(20).collect::<Vec<_>>()});
         ctx.eval();
-        match catch(|| write_with(short, |w| AspartixWriter.write_single_extension(w, &chosen))) {
+        match catch(|| {
+            if let Some(k) = failing_write_due() {
+                let _ = with_apx_writer(|wr| wr.write_single_extension(&mut FailsAfter { left: k }, &chosen));
+            }
+            write_with(short, |w| with_apx_writer(|wr| wr.write_single_extension(w, &chosen)))
+        }) {
             Err(p) => ctx.violation(&format!("C14/panic/apx-write_single_extension/{}", p.site()), p.to_json(), &case),
             Ok(Err(e)) => ctx.violation("C14/apx-write_single_extension-failed", json!({"error": e}), &case),
             Ok(Ok(b)) => match parse_bracket_line(&b) {
@@ -1958,13 +2101,13 @@ fn eval_c14_answers(ctx: &mut Ctx, rng: &mut Rng) {
         for st in [true, false] {
             ctx.eval();
             let exp: &[u8] = if st { b"YES\n" } else { b"NO\n" };
-            match catch(|| write_with(short, |w| AspartixWriter.write_acceptance_status(w, st))) {
+            match catch(|| write_with(short, |w| with_apx_writer(|wr| wr.write_acceptance_status(w, st)))) {
                 Ok(Ok(b)) if b == exp => ctx.count("status_lines_checked"),
                 other => ctx.violation("C14/apx-status-line", json!({"status": st, "got": format!("{:?}", other.map(|r| r.map(|b| String::from_utf8_lossy(&b).to_string())).map_err(|p| p.msg))}), &json!({"kind": "status"})),
             }
         }
         ctx.eval();
-        match catch(|| write_with(short, |w| AspartixWriter.write_no_extension(w))) {
+        match catch(|| write_with(short, |w| with_apx_writer(|wr| wr.write_no_extension(w)))) {
             Ok(Ok(b)) if b == b"NO\n" => ctx.count("status_lines_checked"),
             other => ctx.violation("C14/apx-no-extension-line", json!({"got": format!("{:?}", other.map(|r| r.map(|b| String::from_utf8_lossy(&b).to_string())).map_err(|p| p.msg))}), &json!({"kind": "no-extension"})),
         }
@@ -2021,7 +2164,7 @@ pub fn replay_c14(ctx: &mut Ctx, case: &Value) -> Result<(), String> {
                 }
             }
         }
-        let bytes = write_with(false, |w| AspartixWriter.write_framework(&af, w))?;
+        let bytes = write_with(false, |w| AspartixWriter::default().write_framework(&af, w))?;
         println!("REPLAY written framework:\n{}", String::from_utf8_lossy(&bytes));
         let (names, atts) = describe(&af);
         match run_reader(false, &bytes) {
